@@ -12,6 +12,11 @@ def args_dump(p, m, v):
     return "(" + "".join("%d=%s" % (i, canon_dump(p, t, x[i])) for (i, fn, t) in sorted(m["args"], key=lambda a: a[0])) + ")"
 
 
+# quick: in-memory + HTTP; thorough (VERIF_TIER=thorough): also the TCP adapter transport against FSimpleServer
+# and the NATS transport against FNatsServer on an in-process nats-server
+TRANSPORTS = ["mem", "mem", "http"] + (["tcp", "tcp", "nats", "nats"] if os.environ.get("VERIF_TIER") == "thorough" else [])
+
+
 def suite_c03(r, n):
     nprogs = max(1, min(8, n // 30))
     progs = []
@@ -30,7 +35,7 @@ def suite_c03(r, n):
             if not allm: continue
             dkey, m = r.pick(allm)
             inherited = dkey != skey
-            transport = r.pick(["mem", "mem", "http"])
+            transport = r.pick(TRANSPORTS)
             proto = r.pick(["binary", "compact", "json"])
             args = gen_args(r, p, m)
             kinds = ["v", "v", "e", "a"] + (["x", "x"] if m["throws"] else [])
